@@ -43,7 +43,9 @@ FAMILIES = [[Fraction(1), Fraction(1, 2), Fraction(1, 4), Fraction(3, 2), Fracti
             [Fraction(1, 3), Fraction(2, 3), Fraction(1), Fraction(1, 6), Fraction(1, 2), Fraction(1, 12)],
             [Fraction(1, 5), Fraction(2, 5), Fraction(1), Fraction(1, 2), Fraction(3, 10)],
             [Fraction(1, 7), Fraction(2, 7), Fraction(1), Fraction(3)],
-            [Fraction(1), Fraction(2), Fraction(1, 2)]]
+            [Fraction(1), Fraction(2), Fraction(1, 2)],
+            # mixed tuplets: chord boundaries with denominators far above 32 (seed C13-4 rounds the cut points)
+            [Fraction(2, 5), Fraction(2, 7), Fraction(1, 3), Fraction(1), Fraction(1, 2), Fraction(3, 14)]]
 SRC_PARTS = ('piano__0', 'violin__0', 'piano__1')
 TGT_PARTS = ('cello__0', 'flute__0')
 
